@@ -8,16 +8,19 @@ package uda
 //@ import io @/utils/io
 
 //@ ghost func colOf(c iface, name str) iface
+// colLen(c): the number of rows of c; a column series is rectangular (every column has colLen(c) values).
+//@ ghost func colLen(c iface) int
 
 //@ func (@/utils/io.ColumnInterface).GetColumn
 //@ trusted "interface method: abstracted by the ghost function colOf"
 //@ pure
 //@ ensures result == colOf(recv, arg0)
+//@ ensures result != nil ==> len(asslice(result, "byte")) == colLen(recv)
 
 //@ func (@/utils/io.ColumnInterface).Len
-//@ trusted "interface method"
+//@ trusted "interface method: number of rows"
 //@ pure
-//@ ensures result >= 0
+//@ ensures result >= 0 && result <= 140737488355328 && result == colLen(recv)
 
 //@ func ColumnToFloat32
 //@ props C23
@@ -36,8 +39,40 @@ package uda
 //@ ensures #numericOnly: err == nil ==> (typeis(colOf(cols, name), "[]float32") || typeis(colOf(cols, name), "[]float64") || typeis(colOf(cols, name), "[]int") || typeis(colOf(cols, name), "[]int64") || typeis(colOf(cols, name), "[]int32") || typeis(colOf(cols, name), "[]int16") || typeis(colOf(cols, name), "[]int8") || typeis(colOf(cols, name), "[]uint") || typeis(colOf(cols, name), "[]uint64") || typeis(colOf(cols, name), "[]uint32") || typeis(colOf(cols, name), "[]uint16") || typeis(colOf(cols, name), "[]uint8"))
 //@ ensures #total: (typeis(colOf(cols, name), "[]float32") || typeis(colOf(cols, name), "[]float64") || typeis(colOf(cols, name), "[]int") || typeis(colOf(cols, name), "[]int64") || typeis(colOf(cols, name), "[]int32") || typeis(colOf(cols, name), "[]int16") || typeis(colOf(cols, name), "[]int8") || typeis(colOf(cols, name), "[]uint") || typeis(colOf(cols, name), "[]uint64") || typeis(colOf(cols, name), "[]uint32") || typeis(colOf(cols, name), "[]uint16") || typeis(colOf(cols, name), "[]uint8")) ==> err == nil
 //@ ensures #len: err == nil ==> len(outCol) == len(asslice(colOf(cols, name), "byte"))
+//@ ensures #rows: err == nil ==> len(outCol) == colLen(cols)
 //@ ensures #f32: (err == nil && typeis(colOf(cols, name), "[]float32")) ==> outCol == asslice(colOf(cols, name), "float32")
 //@ ensures #vf64: (err == nil && typeis(colOf(cols, name), "[]float64")) ==> forall(k, 0, len(outCol), outCol[k] == asslice(colOf(cols, name), "float64")[k])
+//@ ensures #vint: (err == nil && typeis(colOf(cols, name), "[]int")) ==> forall(k, 0, len(outCol), outCol[k] == real(asslice(colOf(cols, name), "int")[k]))
+//@ ensures #vi64: (err == nil && typeis(colOf(cols, name), "[]int64")) ==> forall(k, 0, len(outCol), outCol[k] == real(asslice(colOf(cols, name), "int64")[k]))
+//@ ensures #vi32: (err == nil && typeis(colOf(cols, name), "[]int32")) ==> forall(k, 0, len(outCol), outCol[k] == real(asslice(colOf(cols, name), "int32")[k]))
+//@ ensures #vi16: (err == nil && typeis(colOf(cols, name), "[]int16")) ==> forall(k, 0, len(outCol), outCol[k] == real(asslice(colOf(cols, name), "int16")[k]))
+//@ ensures #vi8: (err == nil && typeis(colOf(cols, name), "[]int8")) ==> forall(k, 0, len(outCol), outCol[k] == real(asslice(colOf(cols, name), "int8")[k]))
+//@ ensures #vu: (err == nil && typeis(colOf(cols, name), "[]uint")) ==> forall(k, 0, len(outCol), outCol[k] == real(asslice(colOf(cols, name), "uint")[k]))
+//@ ensures #vu64: (err == nil && typeis(colOf(cols, name), "[]uint64")) ==> forall(k, 0, len(outCol), outCol[k] == real(asslice(colOf(cols, name), "uint64")[k]))
+//@ ensures #vu32: (err == nil && typeis(colOf(cols, name), "[]uint32")) ==> forall(k, 0, len(outCol), outCol[k] == real(asslice(colOf(cols, name), "uint32")[k]))
+//@ ensures #vu16: (err == nil && typeis(colOf(cols, name), "[]uint16")) ==> forall(k, 0, len(outCol), outCol[k] == real(asslice(colOf(cols, name), "uint16")[k]))
+//@ ensures #vu8: (err == nil && typeis(colOf(cols, name), "[]uint8")) ==> forall(k, 0, len(outCol), outCol[k] == real(asslice(colOf(cols, name), "uint8")[k]))
+
+//@ func ColumnToFloat64
+//@ props C23
+//@ loop 0 invariant #f32: 0 <= iter0 && iter0 <= len(cc) && len(outCol) == len(cc) && forall(k, 0, iter0, outCol[k] == real(cc[k]))
+//@ loop 1 invariant #int: 0 <= iter0 && iter0 <= len(cc) && len(outCol) == len(cc) && forall(k, 0, iter0, outCol[k] == real(cc[k]))
+//@ loop 2 invariant #i64: 0 <= iter0 && iter0 <= len(cc) && len(outCol) == len(cc) && forall(k, 0, iter0, outCol[k] == real(cc[k]))
+//@ loop 3 invariant #i32: 0 <= iter0 && iter0 <= len(cc) && len(outCol) == len(cc) && forall(k, 0, iter0, outCol[k] == real(cc[k]))
+//@ loop 4 invariant #i16: 0 <= iter0 && iter0 <= len(cc) && len(outCol) == len(cc) && forall(k, 0, iter0, outCol[k] == real(cc[k]))
+//@ loop 5 invariant #i8: 0 <= iter0 && iter0 <= len(cc) && len(outCol) == len(cc) && forall(k, 0, iter0, outCol[k] == real(cc[k]))
+//@ loop 6 invariant #u: 0 <= iter0 && iter0 <= len(cc) && len(outCol) == len(cc) && forall(k, 0, iter0, outCol[k] == real(cc[k]))
+//@ loop 7 invariant #u64: 0 <= iter0 && iter0 <= len(cc) && len(outCol) == len(cc) && forall(k, 0, iter0, outCol[k] == real(cc[k]))
+//@ loop 8 invariant #u32: 0 <= iter0 && iter0 <= len(cc) && len(outCol) == len(cc) && forall(k, 0, iter0, outCol[k] == real(cc[k]))
+//@ loop 9 invariant #u16: 0 <= iter0 && iter0 <= len(cc) && len(outCol) == len(cc) && forall(k, 0, iter0, outCol[k] == real(cc[k]))
+//@ loop 10 invariant #u8: 0 <= iter0 && iter0 <= len(cc) && len(outCol) == len(cc) && forall(k, 0, iter0, outCol[k] == real(cc[k]))
+//@ ensures #nilcol: colOf(cols, name) == nil ==> err != nil
+//@ ensures #numericOnly: err == nil ==> (typeis(colOf(cols, name), "[]float32") || typeis(colOf(cols, name), "[]float64") || typeis(colOf(cols, name), "[]int") || typeis(colOf(cols, name), "[]int64") || typeis(colOf(cols, name), "[]int32") || typeis(colOf(cols, name), "[]int16") || typeis(colOf(cols, name), "[]int8") || typeis(colOf(cols, name), "[]uint") || typeis(colOf(cols, name), "[]uint64") || typeis(colOf(cols, name), "[]uint32") || typeis(colOf(cols, name), "[]uint16") || typeis(colOf(cols, name), "[]uint8"))
+//@ ensures #total: (typeis(colOf(cols, name), "[]float32") || typeis(colOf(cols, name), "[]float64") || typeis(colOf(cols, name), "[]int") || typeis(colOf(cols, name), "[]int64") || typeis(colOf(cols, name), "[]int32") || typeis(colOf(cols, name), "[]int16") || typeis(colOf(cols, name), "[]int8") || typeis(colOf(cols, name), "[]uint") || typeis(colOf(cols, name), "[]uint64") || typeis(colOf(cols, name), "[]uint32") || typeis(colOf(cols, name), "[]uint16") || typeis(colOf(cols, name), "[]uint8")) ==> err == nil
+//@ ensures #len: err == nil ==> len(outCol) == len(asslice(colOf(cols, name), "byte"))
+//@ ensures #rows: err == nil ==> len(outCol) == colLen(cols)
+//@ ensures #f64: (err == nil && typeis(colOf(cols, name), "[]float64")) ==> outCol == asslice(colOf(cols, name), "float64")
+//@ ensures #vf32: (err == nil && typeis(colOf(cols, name), "[]float32")) ==> forall(k, 0, len(outCol), outCol[k] == asslice(colOf(cols, name), "float32")[k])
 //@ ensures #vint: (err == nil && typeis(colOf(cols, name), "[]int")) ==> forall(k, 0, len(outCol), outCol[k] == real(asslice(colOf(cols, name), "int")[k]))
 //@ ensures #vi64: (err == nil && typeis(colOf(cols, name), "[]int64")) ==> forall(k, 0, len(outCol), outCol[k] == real(asslice(colOf(cols, name), "int64")[k]))
 //@ ensures #vi32: (err == nil && typeis(colOf(cols, name), "[]int32")) ==> forall(k, 0, len(outCol), outCol[k] == real(asslice(colOf(cols, name), "int32")[k]))
